@@ -88,17 +88,17 @@ pub open spec fn au_view(m: Map<ClientID, AwarenessUpdateEntry>) -> Map<ClientID
     m.map_values(|e: AwarenessUpdateEntry| au_ent(e))
 }
 
-/// one entry: client as u64 var-int, clock as u32 var-int, JSON as length-prefixed string
+/// one entry: client as u64 var-int (must fit into 53 bits), clock as u32 var-int, JSON as length-prefixed string
 pub open spec fn dec_au_item(s: Seq<u8>) -> Option<((ClientID, AuEnt), nat)> {
     match dec_u64(s) {
         None => None,
-        Some((client, k)) => match dec_u32(s.skip(k as int)) {
+        Some((client, k)) => if !client_id_53bit(client) { None } else { match dec_u32(s.skip(k as int)) {
             None => None,
             Some((clock, k2)) => match dec_buf(s.skip((k + k2) as int)) {
                 None => None,
                 Some((b, k3)) => Some(((ClientID(client), (clock, from_utf8(b))), k + k2 + k3)),
             },
-        },
+        } },
     }
 }
 
@@ -137,7 +137,7 @@ pub proof fn lemma_au_item_cases(sa: Seq<u8>)
             None => dec_au_item(sa) is None,
             Some((client, k1)) => {
                 let sb = sa.skip(k1 as int);
-                1 <= k1 <= sa.len() && suffix_of(sa, sb) && match dec_u32(sb) {
+                1 <= k1 <= sa.len() && suffix_of(sa, sb) && if !client_id_53bit(client) { dec_au_item(sa) is None } else { match dec_u32(sb) {
                     None => dec_au_item(sa) is None,
                     Some((clock, k2)) => {
                         let sc = sb.skip(k2 as int);
@@ -147,7 +147,7 @@ pub proof fn lemma_au_item_cases(sa: Seq<u8>)
                                 && dec_au_item(sa) == Some(((ClientID(client), (clock, from_utf8(b))), k1 + k2 + k3)),
                         }
                     },
-                }
+                } }
             },
         },
 {
@@ -186,8 +186,8 @@ pub proof fn lemma_au_view_empty()
 
 impl Decode for AwarenessUpdate {
     // (a) TOTAL + PROGRESS: every iteration consumes >= 3 bytes (invariant `decoder.rest().len() + 3 * n <= s1.len()`)
-    //     `ClientID::new(..)` on an unchecked u64                                                    -- FINDING F-DC-6 (see unit.rs)
-    // (b) ALLOCATION BUDGET: `HashMap::with_capacity(len)`, len: usize straight from a var-int        -- FINDING F-DC-5 (see unit.rs)
+    //     the client id goes through `ClientID::decode` (F-DC-6, repaired): a value >= 2^53 is an error
+    // (b) ALLOCATION BUDGET: `HashMap::with_capacity(..)` goes through vx_budget (F-DC-5, repaired: capped at 1024)
     // (c) RESULT SHAPE: at most (consumed bytes) / 3 clients
     // (d) for every decoder that does not override read_string: equality with `dec_au`
     /*@extract yrs/src/sync/awareness.rs | impl Decode for AwarenessUpdate | fn decode | label=au_decode | rules=SUB(from=crate::encoding::read::Error;;to=Error) SUB(from=HashMap::with_capacity;;to=vx_budget(decoder).map_with_capacity::<ClientID, AwarenessUpdateEntry>) SUB(from=Arc<str>;;to=Str) SUB(from=decoder.read_string()?.into();;to=vx_arc_str(decoder.read_string()?))
@@ -238,7 +238,7 @@ impl Decode for AwarenessUpdate {
             if dec_u64(sa) is Some {
                 let sb = sa.skip(dec_u64(sa)->Some_0.1 as int);
                 lemma_suffix_trans(sa, sb);
-                if dec_u32(sb) is Some {
+                if client_id_53bit(dec_u64(sa)->Some_0.0) && dec_u32(sb) is Some {
                     lemma_suffix_trans(sa, sb.skip(dec_u32(sb)->Some_0.1 as int));
                 }
             }
